@@ -49,6 +49,47 @@ pub fn home(k: u64) -> usize {
     unsafe { (HOME[k as usize] as usize) & (N - 1) }
 }
 
+/// Representative occupancy layouts (drift states) of an 8-slot table; keys, home slots and values
+/// stay symbolic. Fully symbolic layouts exhaust 14 GB in the purge / update / merge harnesses.
+pub const LAYOUT_7_FLAT: [u16; 8] = [1, 1, 1, 1, 1, 1, 1, 0]; // every key at its home slot
+pub const LAYOUT_7_CLUSTERS: [u16; 8] = [1, 2, 3, 1, 2, 1, 1, 0]; // collision chains of length 3 and 2
+pub const LAYOUT_7_WRAP: [u16; 8] = [2, 3, 1, 1, 1, 0, 1, 1]; // a chain that wraps around the end
+pub const LAYOUT_6_FLAT: [u16; 8] = [1, 1, 1, 0, 1, 1, 1, 0];
+pub const LAYOUT_6_CLUSTERS: [u16; 8] = [1, 2, 3, 0, 1, 2, 1, 0];
+pub const LAYOUT_6_WRAP: [u16; 8] = [2, 3, 0, 1, 1, 0, 1, 1];
+pub const LAYOUT_3: [u16; 8] = [0, 1, 2, 0, 0, 1, 0, 0];
+pub const LAYOUT_1: [u16; 8] = [0, 0, 0, 1, 0, 0, 0, 0];
+pub const LAYOUT_0: [u16; 8] = [0; 8];
+
+/// map with the given (concrete) drift states; keys / homes / values symbolic and invariant-satisfying
+pub fn map_with_layout(layout: [u16; 8]) -> ReversePurgeItemHashMap<u64> {
+    let mut keys: Vec<Option<u64>> = Vec::with_capacity(N);
+    let mut values: Vec<u64> = Vec::with_capacity(N);
+    let mut states: Vec<u16> = Vec::with_capacity(N);
+    let mut n_active = 0usize;
+    let mut i = 0;
+    while i < N {
+        let st = layout[i];
+        if st > 0 {
+            let k: u64 = kani::any();
+            kani::assume((k as usize) < D);
+            let v: u64 = kani::any();
+            kani::assume(v >= 1 && v < (1u64 << 60));
+            keys.push(Some(k));
+            values.push(v);
+            n_active += 1;
+        } else {
+            keys.push(None);
+            values.push(0);
+        }
+        states.push(st);
+        i += 1;
+    }
+    let m = ReversePurgeItemHashMap { lg_length: 3, load_threshold: 6, keys, values, states, num_active: n_active };
+    kani::assume(map_invariant(&m));
+    m
+}
+
 /// Symbolic map of size N satisfying the representation invariant of the linear-probing table.
 pub fn any_map() -> ReversePurgeItemHashMap<u64> {
     let mut keys: Vec<Option<u64>> = Vec::with_capacity(N);
@@ -232,25 +273,9 @@ fn c07_map_delete_step() {
     core::mem::forget(m);
 }
 
-//@ props: C07 C17 C18
-//@ tier: quick
-//@ timeout: 1500
-//@ functions: frequencies::ReversePurgeItemHashMap::purge
-//@ functions: frequencies::ReversePurgeItemHashMap::keep_only_positive_counts
-//@ functions: frequencies::ReversePurgeItemHashMap::adjust_all_values_by
-//@ functions: frequencies::ReversePurgeItemHashMap::hash_delete
-//@ bounds: table of 8 slots with exactly 7 active keys (the only state in which a size-8 sketch purges), every layout and every value vector in 1..2^60, sample size 6
-//@ assumes: representation invariant of the probing table (map_invariant)
-//@ replay_stub: frequencies/reverse_purge_item_hash_map.rs | fn hash_item<T: Hash>(item: &T) -> u64 { | return self::verif_kani_frequencies_map::verif_hash_item(item);
-//@ desc: purge(6) returns m >= 1 such that every key's value becomes value (-) m (saturating), keys with value <= m disappear, at least 3 counters were >= m (amortisation), at most 6 keys remain (in fact <= 3 + 1), invariant preserved
-#[kani::proof]
-#[kani::unwind(10)]
-#[kani::stub(hash_item, verif_hash_item)]
-#[kani::stub(<[u64]>::select_nth_unstable, crate::verif_kani_common::model_select_nth)]
-fn c07_map_purge() {
+fn purge_case(layout: [u16; 8]) {
     init_home();
-    let mut m = any_map();
-    kani::assume(m.num_active == 7);
+    let mut m = map_with_layout(layout);
     let x: u64 = kani::any();
     kani::assume((x as usize) < D);
     let before_x = model_get(&m, x);
@@ -283,3 +308,34 @@ fn c07_map_purge() {
     kani::cover!(m.num_active == 3);
     core::mem::forget(m);
 }
+
+macro_rules! purge_layout {
+    ($name:ident, $layout:expr) => {
+        #[kani::proof]
+        #[kani::unwind(10)]
+        #[kani::stub(hash_item, verif_hash_item)]
+        #[kani::stub(<[u64]>::select_nth_unstable, crate::verif_kani_common::model_select_nth)]
+        fn $name() {
+            purge_case($layout);
+        }
+    };
+}
+
+//@ family: purge_layout
+//@ props: C07 C17 C18
+//@ tier: thorough
+//@ timeout: 1800
+//@ functions: frequencies::ReversePurgeItemHashMap::purge
+//@ functions: frequencies::ReversePurgeItemHashMap::keep_only_positive_counts
+//@ functions: frequencies::ReversePurgeItemHashMap::adjust_all_values_by
+//@ functions: frequencies::ReversePurgeItemHashMap::hash_delete
+//@ unwind: 10
+//@ stubs: hash_item -> symbolic home table; select_nth_unstable -> reference model
+//@ bounds: 8-slot table holding 7 keys (the only state in which a size-8 sketch purges) in the occupancy layout of the instance (flat / collision chains / wrap-around chain); keys, home slots and all 7 values (1..2^60) symbolic, sample size 6
+//@ assumes: representation invariant of the probing table (map_invariant)
+//@ replay_stub: frequencies/reverse_purge_item_hash_map.rs | fn hash_item<T: Hash>(item: &T) -> u64 { | return self::verif_kani_frequencies_map::verif_hash_item(item);
+//@ desc: purge(6) returns m >= 1 such that every key's value becomes value (-) m (saturating), keys with value <= m disappear, the counters lose at least 3 medians of weight (amortisation), at most 6 keys remain, invariant preserved
+purge_layout!(c07_map_purge_flat, LAYOUT_7_FLAT); //@ tier: quick
+purge_layout!(c07_map_purge_clusters, LAYOUT_7_CLUSTERS); //@ tier: quick
+purge_layout!(c07_map_purge_wrap, LAYOUT_7_WRAP);
+//@ endfamily: x
